@@ -17,7 +17,10 @@
 EXTENDS Naturals, Sequences
 
 CONSTANTS MaxToks,       \* token streams of up to this length are explored
-          CloseOnError, Drain
+          CloseOnError, Drain,
+          Cap            \* capacity of the token channel: 0 = unbuffered (the code); > 0 models "give the channel a buffer
+                         \* instead of draining": it only helps while the tokens still to come fit, and a token need not
+                         \* consume input (C01.tla, TokenBound), so no capacity computed from the source length is safe
 
 VARIABLES Toks,     \* the token stream: a sequence over {"T", "EOF", "ERROR"} ending in its only EOF or ERROR
           lpc,      \* lexer: "send" (has token lidx to send) | "exited"
@@ -25,12 +28,13 @@ VARIABLES Toks,     \* the token stream: a sequence over {"T", "EOF", "ERROR"} e
           closed,   \* token channel closed
           ppc,      \* parser: "run" | "returned"
           got,      \* number of tokens the parser has received from the channel
-          done      \* done channel closed (only with Drain)
-vars == <<Toks, lpc, lidx, closed, ppc, got, done>>
+          done,     \* done channel closed (only with Drain)
+          nbuf      \* tokens sitting in the channel's buffer
+vars == <<Toks, lpc, lidx, closed, ppc, got, done, nbuf>>
 
 Streams == {s \in UNION {[1..n -> {"T", "EOF", "ERROR"}] : n \in 1..MaxToks} :
               /\ s[Len(s)] \in {"EOF", "ERROR"} /\ \A q \in 1..(Len(s) - 1) : s[q] = "T"}
-Init == Toks \in Streams /\ lpc = "send" /\ lidx = 1 /\ closed = FALSE /\ ppc = "run" /\ got = 0 /\ done = FALSE
+Init == Toks \in Streams /\ lpc = "send" /\ lidx = 1 /\ closed = FALSE /\ ppc = "run" /\ got = 0 /\ done = FALSE /\ nbuf = 0
 
 Last(i) == i = Len(Toks)
 (* what the lexer does after token i has been handed over (or dropped) *)
@@ -41,10 +45,18 @@ AfterToken(i) ==
   ELSE lpc' = "send" /\ lidx' = i + 1 /\ UNCHANGED closed
 
 (* rendez-vous on the unbuffered channel: the lexer sends token lidx, the parser receives it *)
-Handoff == /\ lpc = "send" /\ ppc = "run" /\ ~closed
+Handoff == /\ Cap = 0 /\ lpc = "send" /\ ppc = "run" /\ ~closed
            /\ got' = got + 1
            /\ AfterToken(lidx)
-           /\ UNCHANGED <<ppc, done, Toks>>
+           /\ UNCHANGED <<ppc, done, Toks, nbuf>>
+(* buffered channel: the lexer puts a token into the buffer while there is room, the parser takes the oldest one *)
+SendBuf == /\ Cap > 0 /\ lpc = "send" /\ nbuf < Cap
+           /\ nbuf' = nbuf + 1
+           /\ AfterToken(lidx)
+           /\ UNCHANGED <<ppc, done, Toks, got>>
+RecvBuf == /\ ppc = "run" /\ nbuf > 0
+           /\ nbuf' = nbuf - 1 /\ got' = got + 1
+           /\ UNCHANGED <<lpc, lidx, closed, ppc, done, Toks>>
 (* a read on the closed channel returns immediately with the last token *)
 ReadClosed == /\ ppc = "run" /\ closed
               /\ UNCHANGED vars
@@ -52,25 +64,25 @@ ReadClosed == /\ ppc = "run" /\ closed
 ParserReturn == /\ ppc = "run"
                 /\ ppc' = "returned"
                 /\ done' = Drain
-                /\ UNCHANGED <<lpc, lidx, closed, got, Toks>>
+                /\ UNCHANGED <<lpc, lidx, closed, got, Toks, nbuf>>
 (* with `done` closed a send does not block: the token is dropped and tokenising goes on to the end *)
 DropToken == /\ lpc = "send" /\ done
              /\ AfterToken(lidx)
-             /\ UNCHANGED <<ppc, got, done, Toks>>
+             /\ UNCHANGED <<ppc, got, done, Toks, nbuf>>
 
 (* both goroutines are gone: the only state in which nothing more happens *)
 Terminated == lpc = "exited" /\ ppc = "returned" /\ UNCHANGED vars
-Next == Handoff \/ ParserReturn \/ DropToken \/ Terminated
-Spec == Init /\ [][Next]_vars /\ WF_vars(Handoff) /\ WF_vars(DropToken) /\ WF_vars(ParserReturn)
+Next == Handoff \/ SendBuf \/ RecvBuf \/ ParserReturn \/ DropToken \/ Terminated
+Spec == Init /\ [][Next]_vars /\ WF_vars(Handoff) /\ WF_vars(SendBuf) /\ WF_vars(RecvBuf) /\ WF_vars(DropToken) /\ WF_vars(ParserReturn)
 (* a parser that wants to read and will not return by itself: used to expose blocking *)
-SpecStubborn == Init /\ [][Handoff \/ DropToken \/ (ParserReturn /\ (closed \/ got = Len(Toks)))]_vars
-                /\ WF_vars(Handoff) /\ WF_vars(DropToken)
+SpecStubborn == Init /\ [][Handoff \/ SendBuf \/ RecvBuf \/ DropToken \/ (ParserReturn /\ (closed \/ got = Len(Toks)))]_vars
+                /\ WF_vars(Handoff) /\ WF_vars(SendBuf) /\ WF_vars(RecvBuf) /\ WF_vars(DropToken)
 
-TypeOK == lpc \in {"send", "exited"} /\ lidx \in 1..Len(Toks) /\ ppc \in {"run", "returned"} /\ got \in 0..Len(Toks)
+TypeOK == lpc \in {"send", "exited"} /\ lidx \in 1..Len(Toks) /\ ppc \in {"run", "returned"} /\ got \in 0..Len(Toks) /\ nbuf \in 0..Cap
 (* no goroutine is left behind: once the parser has returned the lexer exits *)
 LexerExits == (ppc = "returned") ~> (lpc = "exited")
 (* the parser is never blocked for good: whenever it wants another token it gets one or the channel is closed *)
-ParserNeverStuck == [](ppc = "run" => (lpc = "send" \/ closed))
+ParserNeverStuck == [](ppc = "run" => (lpc = "send" \/ closed \/ nbuf > 0))
 (* every token is received at most once and in order *)
 OrderOK == got <= lidx
 =============================================================================
